@@ -64,6 +64,9 @@ def run(ctx):
     from .c03 import g9, t3p
     g9(ctx, R)
     t3p(ctx, R)
+    # a verdict is returned at all: no str-only method on a list / test value before the slot's type test (X14 of C02)
+    from .c02 import x14
+    x14(ctx, R)
     # "has required every extension it uses": the three gates, registry ownership and its per-parse reset (rules of C07 / C13)
     from .c07 import gates
     from .c13 import h3, h2
@@ -143,7 +146,8 @@ def lexer_rules(ctx, R, rules=("L1", "L2", "L3", "L4")):
                           witness="a hash comment followed by another line is an unknown token")
         else:
             ctx.holds("L3", "re.MULTILINE=%s, rules use $: %s" % (ml, uses_dollar))
-        extra = R.master_flags & ~(re.M | re.U)
+        # (re.DOTALL only changes what `.` matches: rule L1 compares every rule's language under the flags actually used)
+        extra = R.master_flags & ~(re.M | re.U | re.S)
         if extra:
             ctx.violation("L3", "Lexer.__init__", "extra-flags", "the master pattern is compiled with extra flags %s (IGNORECASE/DOTALL/VERBOSE "
                           "change every rule's language)" % re.RegexFlag(extra), file=R.pmod.relpath, line=R.master_node.lineno)
